@@ -31,6 +31,78 @@ WITNESSES = [
 ]
 
 
+def selftest(ctx, traces):
+    """detector self-test: tamper with the parsed frames of a real trace (the implementation is NOT involved) and
+    require that the python oracle and the Lean acceptor both reject, with the expected rule"""
+    import copy
+    base = None
+    for tr in traces:
+        if tr.attack:
+            continue
+        recs = [r for r in tr.recs if r.kind == "txp" and r.ep == "s" and r.space == "app"
+                and sum(1 for f in r.frames if f["type"] == "NEW_CONNECTION_ID") >= 2]
+        if recs:
+            base = (tr, recs[0].idx)
+            break
+    if base is None:
+        ctx.oblige("correspond", "detector self-test: a trace with two NEW_CONNECTION_ID frames in one packet exists", False, "")
+        return
+    tr, idx = base
+
+    def tampered(fn):
+        t2 = copy.copy(tr)
+        t2.recs = []
+        for r in tr.recs:
+            if r.idx == idx:
+                r2 = copy.copy(r)
+                frames = copy.deepcopy(r.frames)
+                ncid = [f for f in frames if f["type"] == "NEW_CONNECTION_ID"]
+                fn(frames, ncid)
+                r2._frames = frames
+                t2.recs.append(r2)
+            else:
+                t2.recs.append(r)
+        return t2
+
+    def dup_cid(frames, n):
+        n[1]["cid"] = n[0]["cid"]
+
+    def dup_token(frames, n):
+        n[1]["token"] = n[0]["token"]
+
+    def differs(frames, n):
+        frames.append(dict(n[0], cid="00" * (len(n[0]["cid"]) // 2)))
+
+    def gap(frames, n):
+        n[1]["seq"] += 5
+
+    def rpt(frames, n):
+        n[1]["retire_prior_to"] = n[1]["seq"] + 1
+
+    def flood(frames, n):
+        last = n[-1]
+        for k in range(1, 9):
+            frames.append(dict(last, seq=last["seq"] + k, cid="%02x" % k + last["cid"][2:], token="%02x" % k + last["token"][2:]))
+
+    def retire_bad(frames, n):
+        frames.append({"type": "RETIRE_CONNECTION_ID", "seq": 77})
+
+    cases = [("dup-cid", dup_cid), ("dup-token", dup_token), ("retransmit-differs", differs), ("seq-gap", gap),
+             ("retire-prior-to", rpt), ("limit-exceeded", flood), ("retire-unissued", retire_bad)]
+    bad = []
+    for want, fn in cases:
+        t2 = tampered(fn)
+        py = {sig.split(":")[2] for sig, msg in e2e_c13.o_c13(t2) if "endpoint s " in msg}
+        ls = e2e_c13.CidView(t2).lines("s")
+        rc, out, err = run_lines([DRIVER, "cid-trace"], ls)
+        lean = {o.split(" ", 1)[1] for o in out if o.startswith("err ")}
+        ctx.evaluations += len(ls)
+        if want not in py or want not in lean:
+            bad.append(f"{want}: python={sorted(py)} lean={sorted(lean)}")
+    ctx.oblige("correspond", f"detector self-test: {len(cases)} tampered traces are rejected by the python oracle and by the Lean acceptor with the expected rule",
+               not bad, "; ".join(bad))
+
+
 def run(ctx):
     ctx.rule = ("an end-to-end scenario counts as non-trivial when the handshake completed and at least one NEW_CONNECTION_ID "
                 "frame was emitted; distinct = distinct scenario parameter sets")
@@ -55,6 +127,7 @@ def run(ctx):
         collected += e2e_props.run_family(ctx, fam, [e2e_c13.o_c13], nq, nt, nontrivial=e2e_c13.nontrivial)
     # the frames of the other families (forgery, attacks excluded by the oracle itself) obey the same rules
     collected += e2e_props.run_family(ctx, "mixed", [e2e_c13.o_c13], 12, 200, nontrivial=e2e_c13.nontrivial)
+    selftest(ctx, collected)
     # correspondence: every real trace is a trace the Lean acceptor (Rfc.PeerView) allows, and the acceptor's verdict
     # agrees with the python oracle's verdict on the frame rules
     items = e2e_c13.lean_lines(collected)
